@@ -140,20 +140,25 @@ def m_swap_partial_reset(dev):
     st = steps_of(dev)
     for i, (a, o) in enumerate(st):
         if a["op"] == "swap_rows" and a["a"] != a["b"]:
-            later = [q for b, q in st[i:]]
+            later = [q for b, q in st[i:]] + [dev["to"]]
             if min(ncols(q, cf["map"]) for q in later) <= max(a["a"], a["b"]):
                 return True
     return False
 
 
 def m_swap_holes(dev):
+    """_orderRows visits the column indices 0 .. get_number_of_columns()-1: unused indices of a map container, or the
+    not yet existing columns below the index given to insert_column(col, index) with a vector container"""
     cf = cfg_of(dev["cfg"])
-    if not (cf["sw"] and cf["map"]):
+    if not cf["sw"]:
         return False
     st = steps_of(dev)
     for i, (a, o) in enumerate(st):
         if a["op"] == "swap_rows" or (a["op"] == "swap_cols" and cf["ra"]):
-            if any(has_holes(q) for b, q in st[i:]) or any(b["op"] in ("remove_col", "insert_at") for b, q in st[i:]):
+            if cf["map"]:
+                if any(has_holes(q) for b, q in st[i:] + [(None, dev["to"])]):
+                    return True
+            elif any(b["op"] == "insert_at" and b["i"] >= q["next"] for b, q in st[i + 1:]):
                 return True
     return False
 
@@ -224,7 +229,7 @@ def ban_predicate(graph, seen, cls_name, ctor, P):
             if op in ("remove_col", "remove_last") and o.get("pend"):
                 return True
         if "C09-swap-order-rows-holes" in seen:
-            if op in ("swap_rows", "swap_cols") and has_holes(o):
+            if op in ("swap_rows", "swap_cols") and is_map and has_holes(o):
                 return True
             if op in ("remove_col", "insert_at", "remove_last") and o.get("pend"):
                 return True
